@@ -1,9 +1,10 @@
-(* C16 — the finite sweeps behind Proofs/Civil.v, kept in their own small file so
-   they are compiled once.  A range [s, s + p) is checked by binary recursion on
-   the POSITIVE p (no unary numbers, no lists); the three facts are closed by the
-   kernel VM.  Domain of each sweep = one 400-year era (146097 days = 4800
-   months = 400 years), stated in the lemma; Proofs/Civil.v lifts them to all of Z by
-   periodicity. *)
+(* C16 — the finite sweeps behind Proofs/Civil.v, kept in their own small file.
+   A range [s, s + p) is checked by binary recursion on the POSITIVE p (no unary
+   numbers, no lists); the three facts are closed by the kernel VM.  Domains: the
+   4800 months and the 400 years of one era (twice), stated in the lemmas;
+   Proofs/Civil.v lifts them to all of Z by periodicity / uses them inside an era.
+   Everything per DAY is proved by linear arithmetic in Proofs/Civil.v (no
+   146097-day sweep). *)
 From Coq Require Import ZArith Lia Bool.
 From L4 Require Import Model.Civil.
 Local Open Scope Z_scope.
@@ -37,11 +38,13 @@ Definition month_start (k : Z) : Z := days_from_civil (k / 12) (k mod 12 + 1) 1.
 
 Definition month_step_ok (k : Z) : bool := month_start k <? month_start (k + 1).
 
-(* round trip, field ranges, and the day lies before the start of the next month *)
-Definition civil_ok (z : Z) : bool :=
-  let '(y, m, d) := civil_from_days z in
-  (days_from_civil y m d =? z) && (1 <=? m) && (m <=? 12) && (1 <=? d) && (d <=? 31)
-  && (z <? month_start (12 * y + m)).
+(* civil_from_days' year-of-era formula: ys y = day-of-era on which the March-based
+   year y of an era starts (ysb: the same with the era's end 146097 at y = 400) *)
+Definition ys (y : Z) : Z := 365 * y + y / 4 - y / 100.
+Definition ysb (y : Z) : Z := ys y + (if 400 <=? y then 1 else 0).
+Definition yoe_of (doe : Z) : Z := (doe - doe / 1460 + doe / 36524 - doe / 146096) / 365.
+(* the formula is right on the first and on the last day of every year of the era *)
+Definition yoe_ends_ok (y : Z) : bool := (yoe_of (ys y) =? y) && (yoe_of (ysb (y + 1) - 1) =? y).
 
 (* Monday of the ISO week that contains 4 January of year y = first day of ISO year y *)
 Definition iso_year_start (y : Z) : Z :=
@@ -64,8 +67,7 @@ Proof. vm_cast_no_check (eq_refl true). Qed.
 Lemma iso_len_era : chk iso_len_ok 400 0 = true.
 Proof. vm_cast_no_check (eq_refl true). Qed.
 
-(* the one big sweep: 146097 days, about 25 s *)
-Lemma civil_ok_era : chk civil_ok 146097 0 = true.
+Lemma yoe_ends_era : chk yoe_ends_ok 400 0 = true.
 Proof. vm_cast_no_check (eq_refl true). Qed.
 
 Global Opaque chk.
